@@ -92,6 +92,8 @@ type oracle struct {
 	checkoutVia map[string]map[string]bool
 	// "<clause> <oid>" -> every path under which the clause needs the object
 	clausePaths map[string]map[string]bool
+	// index clause: oid -> the index entries ("<worktree dir>\x00<path>") that reference it
+	indexAt map[string][]string
 	include     []string // lfs.fetchinclude of the case: NO influence on any clause, used for labelling and counting only
 	worktrees   []wtInfo
 }
@@ -354,7 +356,7 @@ func short(s string) string {
 }
 
 func (c *cs) computeOracle() *oracle {
-	o := &oracle{clause: map[string]map[string]string{}, reachable: map[string]string{}, reachPaths: map[string]map[string]bool{}, stashBase: map[string]string{}, detachedOnly: map[string]string{}, remoteRefKind: map[string]string{}, exclude: c.cfg.Exclude, checkoutVia: map[string]map[string]bool{}, clausePaths: map[string]map[string]bool{}, include: c.cfg.Include}
+	o := &oracle{clause: map[string]map[string]string{}, reachable: map[string]string{}, reachPaths: map[string]map[string]bool{}, stashBase: map[string]string{}, detachedOnly: map[string]string{}, remoteRefKind: map[string]string{}, exclude: c.cfg.Exclude, checkoutVia: map[string]map[string]bool{}, clausePaths: map[string]map[string]bool{}, indexAt: map[string][]string{}, include: c.cfg.Include}
 	for _, cl := range clauseOrder {
 		o.clause[cl] = map[string]string{}
 	}
@@ -419,6 +421,7 @@ func (c *cs) computeOracle() *oracle {
 		c.blobPointers(shas)
 		for _, e := range ents {
 			if bp := c.blobs[e.sha]; bp != nil && bp.ok && !excluded(o.exclude, e.path) {
+				o.indexAt[bp.oid] = append(o.indexAt[bp.oid], idxKey(w.Path, e.path))
 				o.add("index", bp.oid, e.path, fmt.Sprintf("index of worktree %s, path %q", c.rel(w.Path), e.path))
 				if _, inHead := o.clause["checkout"][bp.oid]; !inHead {
 					staged = true
